@@ -149,6 +149,37 @@ def accuracy_oracle(args):
         if np.linalg.norm(out - ref) > 1e-8 * np.linalg.norm(v):
             return f"expm_arnoldi error {np.linalg.norm(out - ref) / np.linalg.norm(v):.3e} on a non-diagonalisable generator ({sub}, size {a.shape[0]}, dt={dt})"
         return None
+    if kind == "nearly_invariant":
+        # Krylov spaces that are ALMOST invariant (off-diagonal Lanczos entries between 1e-12 and 1e-6): a block weakly coupled to the
+        # rest, a start vector next to an eigenvector, and operators in small units evolved over a correspondingly long time
+        sub = args["sub"]
+        tol = 1e-8
+        if sub == "weak_block":
+            d1, d2, eps = args["d1"], args["n"], args["eps"]
+            a = np.zeros((d1 + d2, d1 + d2), dtype=complex)
+            a[:d1, :d1] = herm(rng, d1, 2.0) if d1 > 1 else 0.3
+            a[d1:, d1:] = herm(rng, d2, 3.0)
+            c = eps * (rng.normal(size=(d1, d2)) + 1j * rng.normal(size=(d1, d2)))
+            a[:d1, d1:], a[d1:, :d1] = c, c.conj().T
+            v = np.zeros(d1 + d2, dtype=complex)
+            v[:d1] = rng.normal(size=d1) + 1j * rng.normal(size=d1)
+        elif sub == "near_eig":
+            a = herm(rng, n, 4.0)
+            w, q = np.linalg.eigh(a)
+            v = q[:, int(rng.integers(0, n))] + args["eps"] * (rng.normal(size=n) + 1j * rng.normal(size=n))
+        else:  # small_units: same physics, other units
+            a = herm(rng, n, 6.0) * args["eps"]
+            v = rng.normal(size=n) + 1j * rng.normal(size=n)
+            dt = dt / args["eps"]
+            tol = 1e-6  # the stopping estimate of the unchanged code is absolute: ~1e-7 relative at unit scale 1e-7
+        out = expm_krylov(lambda x: a @ x, v.copy(), dt)
+        ref = scipy.linalg.expm(-1j * dt * a) @ v
+        if abs(np.linalg.norm(out) / np.linalg.norm(v) - 1) > 1e-9:
+            return f"expm_krylov does not preserve the norm ({sub})"
+        if np.linalg.norm(out - ref) > tol * np.linalg.norm(v):
+            return (f"expm_krylov error {np.linalg.norm(out - ref) / np.linalg.norm(v):.3e} on a nearly invariant Krylov space "
+                    f"({sub}, size {a.shape[0]}, scale {args['eps']:.1e}, dt={dt:.3g})")
+        return None
     if kind == "numba":
         big = args["n"]
         d = rng.uniform(-2, 2, size=big)
@@ -199,6 +230,11 @@ def search(ctx):
         sub = ["critical", "ladder", "jordan"][k % 3]
         plan.append(dict(kind="defective", sub=sub, seed=int(ctx.rng.integers(0, 2**31)), n=int(ctx.rng.integers(2, 5)) if sub == "critical" else int(ctx.rng.integers(3, 8)),
                          dt=float(ctx.rng.choice([0.1, 0.3, -0.2]))))
+    for k in range(ctx.scale(12, 150)):
+        sub = ["weak_block", "near_eig", "small_units"][k % 3]
+        plan.append(dict(kind="nearly_invariant", sub=sub, seed=int(ctx.rng.integers(0, 2**31)), n=int(ctx.rng.integers(12, 45)),
+                         d1=int(ctx.rng.integers(1, 5)), eps=float(10 ** ctx.rng.uniform(-8, -6.7)) if sub != "small_units" else float(10 ** ctx.rng.uniform(-7, -3)),
+                         dt=float(ctx.rng.choice([-1.2, 1.0, 1.5]))))
     plan += [dict(kind="numba", seed=1, n=4095, dt=0.1), dict(kind="numba", seed=2, n=4096, dt=0.1), dict(kind="numba", seed=3, n=1200, dt=-0.2)]
     if not ctx.quick:
         plan += [dict(kind="numba", seed=4, n=5000, dt=0.05)]
